@@ -208,3 +208,45 @@ for _k in ('d = vr_mir', 'd = vc_mic'):
     _wp.hints[_k] = ['implies(not keep_int_repr and %s == 0 and psi_2e != 0, vc_mic == vsqrt(%s))' % (METRIC, _WR)]
 _wp.props = ('C04', 'C13')
 _CT['dtw.warping_paths#endpsi'] = _wp
+
+
+# ---------------------------------------------------------------------------------------------
+# Third stage: the -1 marking of the cells skipped by end-of-series psi relaxation (psi_neg=True).
+# M = result[1], d = result[0], RF(x) = x (internal representation) or result_fn(x).
+_wn = _copy.copy(_wp)
+_wn.name = 'dtw.warping_paths#psineg'
+_wn.params = dict(_wp.params, psi_neg=('const', True))
+_RF = '(W({a}, {b}) if keep_int_repr else vsqrt_if(%s, W({a}, {b})))' % METRIC
+_M = 'result[1]'
+_INCOL = '(b == %s and 1 <= a <= %s and %s - a <= %s and %s != 0)' % (C, R, R, P1E, P1E)
+_INROW = '(a == %s and 1 <= b <= %s and %s - b <= %s)' % (R, C, C, P2E)
+_wn.ensures = [
+    'implies(keep_int_repr, result[0] == %s)' % _RES,
+    'implies(not keep_int_repr, result[0] == vsqrt_if(%s, %s))' % (METRIC, _RES),
+    # every cell is either marked or holds its value
+    'forall(lambda a, b: implies(0 <= a <= %s and 0 <= b <= %s, %s[a, b] == -1 or %s[a, b] == %s))'
+    % (R, C, _M, _M, _RF.format(a='a', b='b')),
+    # marks only on the relaxed end of the last column / last row ...
+    'forall(lambda a, b: implies(0 <= a <= %s and 0 <= b <= %s, implies(%s[a, b] == -1 and %s != -1, %s or %s)))'
+    % (R, C, _M, _RF.format(a='a', b='b'), _INCOL, _INROW),
+    # ... as a run that is closed towards the corner ...
+    'forall(lambda a: implies(1 <= a < %s, implies(%s[a, %s] == -1 and %s != -1, %s[a + 1, %s] == -1)))'
+    % (R, _M, C, _RF.format(a='a', b=C), _M, C),
+    'forall(lambda b: implies(1 <= b < %s, implies(%s[%s, b] == -1 and %s != -1, %s[%s, b + 1] == -1)))'
+    % (C, _M, R, _RF.format(a=R, b='b'), _M, R),
+    # ... whose cells are strictly worse than the returned value ...
+    'forall(lambda a, b: implies(0 <= a <= %s and 0 <= b <= %s, implies(%s[a, b] == -1 and %s != -1, result[0] < %s)))'
+    % (R, C, _M, _RF.format(a='a', b='b'), _RF.format(a='a', b='b')),
+    # ... and the cell in front of the run (or the corner, if nothing is marked) holds the returned value
+    'implies(%s >= 1, implies(%s[%s, %s] != -1, result[0] == %s[%s, %s]))' % (R, _M, R, C, _M, R, C),
+    'forall(lambda a: implies(1 <= a < %s - 1, implies(%s[a + 1, %s] == -1 and %s != -1 and %s[a, %s] != -1, result[0] == %s[a, %s])))'
+    % (R, _M, C, _RF.format(a='a + 1', b=C), _M, C, _M, C),
+    'forall(lambda b: implies(1 <= b < %s - 1, implies(%s[%s, b + 1] == -1 and %s != -1 and %s[%s, b] != -1, result[0] == %s[%s, b])))'
+    % (C, _M, R, _RF.format(a=R, b='b + 1'), _M, R, _M, R),
+    # a marked corner: the run continues along the column or the row, or the unmarked neighbour on that edge holds the value
+    'implies(%s >= 1, implies(%s[%s, %s] == -1 and %s != -1, '
+    '%s[%s - 1, %s] == -1 or %s[%s, %s - 1] == -1 or result[0] == %s[%s - 1, %s] or result[0] == %s[%s, %s - 1]))'
+    % (R, _M, R, C, _RF.format(a=R, b=C), _M, R, C, _M, R, C, _M, R, C, _M, R, C),
+]
+_wn.props = ('C04',)
+_CT['dtw.warping_paths#psineg'] = _wn
